@@ -58,10 +58,10 @@ var zzExtras = []zzExtra{
 	{Name: "save of a difference",
 		Script: "vars {\nmonetary $x\nmonetary $y\nmonetary $m\n}\nsave $x - $y from @a\nsend $m (\n  source = @a\n  destination = @b\n)\n",
 		Mon: []string{"x", "y", "m"}, Bal: []string{"a"},
-		Assume: func(in *zzXIn) bool { return verifhook.Ge(in.v["x"], in.v["y"]) },
 		Expect: func(in *zzXIn) zzXExpect {
+			// a negative amount cannot be put aside: the script is refused
 			avail := verifhook.Max(zzZero, zzSub(in.bal["a"], zzSub(in.v["x"], in.v["y"])))
-			return zzXExpect{accept: verifhook.Le(in.v["m"], avail), posts: []zzXPost{{"a", "b", in.v["m"]}}}
+			return zzXExpect{accept: verifhook.And(verifhook.Ge(in.v["x"], in.v["y"]), verifhook.Le(in.v["m"], avail)), posts: []zzXPost{{"a", "b", in.v["m"]}}}
 		}},
 	{Name: "save of a sum",
 		Script: "vars {\nmonetary $x\nmonetary $y\nmonetary $m\n}\nsave $x + $y from @a\nsend $m (\n  source = @a\n  destination = @b\n)\n",
